@@ -39,7 +39,7 @@ tvars == <<l, run, bad, skip, id, tcfg, mlk, frag, sdoc, fdoc, pend, cnt, fvars>
 E == Rec[l]
 More == l <= Len(Rec)
 Frozen == UNCHANGED fvars       \* the design-level variables are not used here
-NoDoc == [dg |-> "", nt |-> <<>>, cm |-> <<>>, ln |-> <<>>]
+NoDoc == [dg |-> "", nt |-> <<>>, cm |-> <<>>, ln |-> <<>>, ld |-> <<>>]
 NoReq == [a |-> "none"]
 Cnt0 == [requests |-> 0, applied |-> 0, inconclusive |-> 0, edits |-> 0, editsCut |-> 0, idempotence |-> 0, tokens |-> 0, ranges |-> 0, ontype |-> 0, web |-> 0]
 Requests == {"FormatDoc", "FormatRange", "FormatOnType"}
